@@ -3128,6 +3128,7 @@ void SGXMLScanner::scanReset(const InputSource& src)
     fStandalone = false;
     fErrorCount = 0;
     fHasNoDTD = true;
+    fXMLVersion = XMLReader::XMLV1_0;
     fSeeXsi = false;
     fDoNamespaces = true;
     fDoSchema = true;
